@@ -1,7 +1,7 @@
 #!/usr/bin/env python3
 """Regenerates MANIFEST.json from the table below (kept in one place so the file is always valid)."""
 import json, os
-HERE = os.path.dirname(os.path.abspath(__file__))
+HERE = os.path.dirname(os.path.dirname(os.path.abspath(__file__)))
 CLAIMED = {k: v for k, v in json.load(open(os.path.join(HERE, "manifest_claims.json"))).items() if not k.startswith("_")}
 ALL = ["C%02d" % i for i in range(1, 21)]
 checks = []
